@@ -61,6 +61,14 @@ def cycles (g : G) : Option (List (List Nat)) :=
   let tbl := reachTable g
   if tableOk tbl then some (cyclesOf g tbl) else none
 
+/-- ALL classes of mutual reachability (singletons included), each sorted, ordered by first member -/
+def classesOf (g : G) (tbl : List (Option (List Nat))) : List (List Nat) :=
+  ((List.range g.n).filter (fun u => (comp g tbl u).head? == some u)).map (comp g tbl)
+
+def classes (g : G) : Option (List (List Nat)) :=
+  let tbl := reachTable g
+  if tableOk tbl then some (classesOf g tbl) else none
+
 /-- severity by size and "core" flag, mirror of `assessCycleSeverity` (circular_detector.go:285-309) -/
 def severity (size : Nat) (hasCore : Bool) : String :=
   if hasCore || size ≥ 10 then "critical" else if size ≥ 6 then "high" else if size ≥ 3 then "medium" else "low"
